@@ -103,7 +103,7 @@ type Series struct {
 	LastT   int64
 	LastV   Val // Kind KStale never stored here: staleness keeps LastKind
 	// LastKind is the type of the newest in-order sample (KFloat/KHist/KFHist).
-	LastKind uint8
+	LastKind  uint8
 	LastStale bool
 	// Uncertain: after a restart the implementation may or may not hold an open head
 	// chunk for the series; appends at or below LastT are then not judged.
@@ -121,7 +121,7 @@ const (
 	ErrOOO
 	ErrTooOld
 	ErrDup
-	Unknown       // not judged (uncertain state)
+	Unknown        // not judged (uncertain state)
 	ErrOOOOrTooOld // beyond the out-of-order window with the reject option: either error names the rejection
 )
 
